@@ -107,8 +107,12 @@ def zero_rejecting(prog):
 
 def check_zero_length(ck, prog, config, clause):
     ZR, byname = zero_rejecting(prog)
-    ck.require(any(f.name == 'hash_update' for (q, i), (w, f) in ZR.items()),
-               'hash_update no longer rejects a zero length: the rule has lost its base fact')
+    if not ZR:
+        # no function of the write path refuses an empty piece any more: nothing can fail for some segmentations only
+        ck.ob(clause, 'R2.zero-length', 'write path', 'no-zero-rejecting-function', True,
+              'no function below the write API rejects a zero length: an empty piece is harmless', config=config,
+              trivial=True)
+        return 0, 0
     roots = [prog.need_func(r) for r in ROOTS]
     seen, ext = prog.reachable_calls(roots)
     n = 0
